@@ -34,46 +34,24 @@ func Exec(parseTree any, assemblyDst string) (*pass1.Pass1, *pass2.Pass2) {
 		os.Exit(-1)
 	}
 
-	// pass1 の Eval を実行
-	// CodeGenContext の初期化に GlobalSymbolList を追加
-	ctx := &codegen.CodeGenContext{
-		BitMode:          cpu.MODE_16BIT, // cpu.MODE_16BIT を保持
-		SymTable:         make(map[string]int32),
-		GlobalSymbolList: []string{},
-		MachineCode:      []byte{},
-	}
-	client, _ := ocode_client.NewCodegenClient(ctx)
-
-	pass1 := &pass1.Pass1{
-		LOC:              0,
-		BitMode:          cpu.MODE_16BIT,       // cpu.MODE_16BIT を保持
-		SymTable:         ctx.SymTable,         // CodeGenContext の SymTable を共有
-		GlobalSymbolList: ctx.GlobalSymbolList, // CodeGenContext の GlobalSymbolList を共有
-		ExternSymbolList: []string{},
-		Client:           client,
-		AsmDB:            asmdb.NewInstructionDB(),
-		MacroMap:         make(map[string]ast.Exp), // activeContext.md に基づいて MacroMap の初期化を追加
-	}
-	// pass1.Eval を呼び出し、ctx を直接更新
-	pass1.Eval(prog, ctx) // Pass ctx, no return value assignment needed
-
-	// pass2 の初期化に GlobalSymbolList を追加 (更新された ctx のリストを使用)
-	pass2 := &pass2.Pass2{
-		BitMode:          pass1.BitMode,
-		OutputFormat:     pass1.OutputFormat,
-		SourceFileName:   pass1.SourceFileName,
-		CurrentSection:   pass1.CurrentSection,
-		SymTable:         pass1.SymTable,       // pass1 と共有 (SymTable はマップなので参照が渡る)
-		GlobalSymbolList: ctx.GlobalSymbolList, // 更新された ctx のリストを使用
-		ExternSymbolList: pass1.ExternSymbolList,
-		Client:           pass1.Client,
-		DollarPos:        pass1.DollarPosition,
-	}
-	// pass2.Eval はエラーのみを返すように変更 (機械語は Client/CodeGenContext に格納)
-	err = pass2.Eval(prog)
-	if err != nil {
-		fmt.Printf("GOSK : failed in pass2 %s", err)
-		os.Exit(-1)
+	// 16 ビットモードの分岐はまず short 形式と仮定して組み立て、届かなかった分岐を near 形式に
+	// 広げてやり直す (広げる一方なので、分岐の数以内の回数で必ず止まる)。
+	var ctx *codegen.CodeGenContext
+	var pass1 *pass1.Pass1
+	var pass2 *pass2.Pass2
+	nearBranches := map[int]bool{}
+	for {
+		ctx, pass1, pass2, err = assembleOnce(prog, nearBranches)
+		if err != nil {
+			fmt.Printf("GOSK : failed in pass2 %s", err)
+			os.Exit(-1)
+		}
+		if len(ctx.TooFarBranches) == 0 {
+			break
+		}
+		for _, id := range ctx.TooFarBranches {
+			nearBranches[id] = true
+		}
 	}
 
 	// ファイルフォーマットを選択して書き出し
@@ -103,6 +81,54 @@ func Exec(parseTree any, assemblyDst string) (*pass1.Pass1, *pass2.Pass2) {
 	}
 
 	return pass1, pass2
+}
+
+// assembleOnce は新しいコンテキストで pass1 と pass2 (コード生成) を 1 回実行します。
+func assembleOnce(prog ast.Prog, nearBranches map[int]bool) (*codegen.CodeGenContext, *pass1.Pass1, *pass2.Pass2, error) {
+	// pass1 の Eval を実行
+	// CodeGenContext の初期化に GlobalSymbolList を追加
+	ctx := &codegen.CodeGenContext{
+		BitMode:          cpu.MODE_16BIT, // cpu.MODE_16BIT を保持
+		SymTable:         make(map[string]int32),
+		GlobalSymbolList: []string{},
+		MachineCode:      []byte{},
+	}
+	client, _ := ocode_client.NewCodegenClient(ctx)
+
+	pass1 := &pass1.Pass1{
+		LOC:              0,
+		BitMode:          cpu.MODE_16BIT,       // cpu.MODE_16BIT を保持
+		SymTable:         ctx.SymTable,         // CodeGenContext の SymTable を共有
+		GlobalSymbolList: ctx.GlobalSymbolList, // CodeGenContext の GlobalSymbolList を共有
+		ExternSymbolList: []string{},
+		Client:           client,
+		AsmDB:            asmdb.NewInstructionDB(),
+		MacroMap:         make(map[string]ast.Exp), // activeContext.md に基づいて MacroMap の初期化を追加
+	}
+	if len(nearBranches) > 0 {
+		pass1.NearBranches = nearBranches
+	}
+	// pass1.Eval を呼び出し、ctx を直接更新
+	pass1.Eval(prog, ctx) // Pass ctx, no return value assignment needed
+
+	// pass2 の初期化に GlobalSymbolList を追加 (更新された ctx のリストを使用)
+	pass2 := &pass2.Pass2{
+		BitMode:          pass1.BitMode,
+		OutputFormat:     pass1.OutputFormat,
+		SourceFileName:   pass1.SourceFileName,
+		CurrentSection:   pass1.CurrentSection,
+		SymTable:         pass1.SymTable,       // pass1 と共有 (SymTable はマップなので参照が渡る)
+		GlobalSymbolList: ctx.GlobalSymbolList, // 更新された ctx のリストを使用
+		ExternSymbolList: pass1.ExternSymbolList,
+		Client:           pass1.Client,
+		DollarPos:        pass1.DollarPosition,
+	}
+	// pass2.Eval はエラーのみを返すように変更 (機械語は Client/CodeGenContext に格納)
+	if err := pass2.Eval(prog); err != nil {
+		return nil, nil, nil, err
+	}
+	return ctx, pass1, pass2, nil
+
 }
 
 // ParseFile は指定されたファイルを解析します。
